@@ -24,7 +24,7 @@ struct SimFS {
     long fail_read_after = -1;
     uint64_t unknown_opens = 0;
 } g_fs;
-struct Cookie { SimFile *f; size_t pos; bool writing; long written; };
+struct Cookie { SimFile *f; size_t pos; bool writing; long written; bool append; };
 
 static ssize_t ck_read(void *c, char *buf, size_t n) {
     Cookie *k = (Cookie *)c; SimFile &f = *k->f;
@@ -48,23 +48,32 @@ static ssize_t ck_write(void *c, const char *buf, size_t n) {
     Cookie *k = (Cookie *)c; SimFile &f = *k->f;
     ++f.writes;
     if (g_fs.fail_write_after >= 0 && k->written + (long)n > g_fs.fail_write_after) { ++f.write_errors; errno = ENOSPC; return 0; }
-    f.data.insert(f.data.end(), buf, buf + n); k->written += (long)n;
+    if (k->append) k->pos = f.data.size();
+    if (k->pos + n > f.data.size()) f.data.resize(k->pos + n);
+    memcpy(f.data.data() + k->pos, buf, n); k->pos += n; k->written += (long)n;
     return (ssize_t)n;
+}
+static int ck_seek(void *c, off64_t *off, int whence) {
+    Cookie *k = (Cookie *)c; long base = whence == SEEK_SET ? 0 : whence == SEEK_CUR ? (long)k->pos : (long)k->f->data.size();
+    long np = base + (long)*off; if (np < 0) return -1; k->pos = (size_t)np; *off = np; return 0;
 }
 static int ck_close(void *c) { delete (Cookie *)c; return 0; }
 
+// fopen() with the semantics of its mode string: "r" needs the file; "r+" needs it and neither truncates nor creates;
+// "w"/"w+" create or truncate; "a"/"a+" create and append.
 extern "C" FILE *simfs_fopen(const char *path, const char *mode) {
-    bool wr = strchr(mode, 'w') || strchr(mode, 'a') || strchr(mode, '+');
+    bool plus = strchr(mode, '+') != nullptr; char m = mode[0];
     auto it = g_fs.files.find(path);
-    if (!wr) {
+    if (m == 'r') {
         if (it == g_fs.files.end()) { errno = ENOENT; return nullptr; }
-        it->second.opened_r = true;
-        cookie_io_functions_t io = {ck_read, nullptr, nullptr, ck_close};
-        return fopencookie(new Cookie{&it->second, 0, false, 0}, "r", io);
+        it->second.opened_r = true; if (plus) it->second.opened_w = true;
+        cookie_io_functions_t io = {ck_read, plus ? ck_write : nullptr, ck_seek, ck_close};
+        return fopencookie(new Cookie{&it->second, 0, plus, 0, false}, plus ? "r+" : "r", io);
     }
-    SimFile &f = g_fs.files[path]; f.opened_w = true; f.data.clear();
-    cookie_io_functions_t io = {nullptr, ck_write, nullptr, ck_close};
-    return fopencookie(new Cookie{&f, 0, true, 0}, "w", io);
+    SimFile &f = g_fs.files[path]; f.opened_w = true; if (plus) f.opened_r = true;
+    if (m == 'w') f.data.clear();
+    cookie_io_functions_t io = {plus ? ck_read : nullptr, ck_write, ck_seek, ck_close};
+    return fopencookie(new Cookie{&f, m == 'a' ? f.data.size() : 0, true, 0, m == 'a'}, m == 'a' ? (plus ? "a+" : "a") : (plus ? "w+" : "w"), io);
 }
 extern "C" FILE *simfs_fopen64(const char *p, const char *m) { return simfs_fopen(p, m); }
 extern "C" FILE *simfs_freopen(const char *p, const char *m, FILE *) { return simfs_fopen(p, m); }
@@ -77,6 +86,7 @@ struct ToolRun {
     std::vector<std::string> argv;
     Bytes input;
     bool input_exists = true;
+    Bytes old_output; bool output_exists = false;     // the output path may already hold a (longer or shorter) file
     int chunk_policy = 0; uint64_t chunk_seed = 0;
     // model side
     bool valid = true; std::string why_invalid;
@@ -107,6 +117,7 @@ static ToolRun make_run(uint64_t seed, uint64_t run, bool fault_cfg) {
     T.have_ctr = T.tool != 2 && r.chance(2, 3);
     if (T.have_ctr) { unsigned cl = r.chance(1, 2) ? bs : r.range(1, bs); T.ctr = r.bytes(cl); if (r.chance(1, 4)) std::fill(T.ctr.begin(), T.ctr.end(), 0xFF); if (r.chance(1, 6) && cl) { std::fill(T.ctr.begin(), T.ctr.end(), 0xFF); T.ctr[cl - 1] = 0xFD; } }
     T.decrypt = T.tool != 0 && r.chance(1, 3);
+    if (r.chance(1, 3)) { T.output_exists = true; T.old_output = r.bytes(r.chance(1, 2) ? n + 1 + r.below(300) : r.below(n + 1)); }
     int invalid = (!fault_cfg && r.chance(1, 4)) ? 1 + r.below(9) : 0;
     std::vector<std::string> a; a.push_back(TOOLN[T.tool]);
     std::string bopt = bs == 8 ? "64" : "128";
@@ -179,6 +190,7 @@ static Invocation invoke(const ToolRun &T, const Bytes &input, const std::vector
         int dn = open("/dev/null", O_WRONLY); if (dn >= 0) { dup2(dn, 2); }
         g_fs.files.clear(); g_fs.chunk_policy = T.chunk_policy; g_fs.rng = Rng(T.chunk_seed); g_fs.fail_write_after = T.fail_write_after; g_fs.fail_read_after = T.fail_read_after;
         if (T.input_exists) g_fs.files["in.bin"].data = input;
+        if (T.output_exists) g_fs.files["out.bin"].data = T.old_output;
         std::vector<std::string> as = argv_s; std::vector<char *> av; for (auto &s : as) av.push_back(&s[0]); av.push_back(nullptr);
         optind = 1; opterr = 0;
         int rc = T.tool == 0 ? tool_main_skinny_ctr((int)as.size(), av.data()) : T.tool == 1 ? tool_main_skinny_tweak((int)as.size(), av.data()) : tool_main_skinny_ecb((int)as.size(), av.data());
@@ -216,7 +228,8 @@ static std::vector<Finding> evaluate(const ToolRun &T, Stats &S) {
     if (!T.valid) {
         ++S.invalid;
         if (I.status == 0) F.push_back({"invalid-accepted", strf("`%s` (%s) exited 0", cmd.c_str(), T.why_invalid.c_str())});
-        else if (I.out_opened) F.push_back({"invalid-produced-output", strf("`%s` (%s) exited %d but created the output file", cmd.c_str(), T.why_invalid.c_str(), I.status)});
+        else if (I.out_opened) F.push_back({"invalid-produced-output", strf("`%s` (%s) exited %d but opened the output file for writing", cmd.c_str(), T.why_invalid.c_str(), I.status)});
+        else if (T.output_exists && I.out != T.old_output) F.push_back({"invalid-produced-output", strf("`%s` (%s) exited %d but changed the existing output file", cmd.c_str(), T.why_invalid.c_str(), I.status)});
         return F;
     }
     ++S.valid;
@@ -243,6 +256,7 @@ static void write_replay(const std::string &path, const ToolRun &T, uint64_t see
     o << "# toolsim replay file\nengine toolsim\nprop C20\nflavour tools\nseed " << seed << "\nrun " << run << "\nexpect " << f.kind << "\nsig " << f.kind << ":" << TOOLN[T.tool] << "\n# violation: " << f.msg << "\n";
     o << "tool " << T.tool << "\nbs " << T.bs << "\nvalid " << T.valid << "\ndecrypt " << T.decrypt << "\nhave_ctr " << T.have_ctr << "\ninput_exists " << T.input_exists << "\nchunk " << T.chunk_policy << " " << T.chunk_seed << "\n";
     o << "key " << hex(T.key) << "\nctr " << hex(T.ctr) << "\ninput " << hex(T.input) << "\nwhy " << T.why_invalid << "\n";
+    if (T.output_exists) o << "oldoutput " << (T.old_output.empty() ? "-" : hex(T.old_output)) << "\n";
     for (auto &a : T.argv) o << "arg " << a << "\n";
 }
 static bool read_replay(const std::string &path, ToolRun &T) {
@@ -253,7 +267,7 @@ static bool read_replay(const std::string &path, ToolRun &T) {
         if (k == "tool") T.tool = atoi(v.c_str()); else if (k == "bs") T.bs = atoi(v.c_str()); else if (k == "valid") T.valid = atoi(v.c_str()); else if (k == "decrypt") T.decrypt = atoi(v.c_str());
         else if (k == "have_ctr") T.have_ctr = atoi(v.c_str()); else if (k == "input_exists") T.input_exists = atoi(v.c_str());
         else if (k == "chunk") { unsigned long long s; sscanf(v.c_str(), "%d %llu", &T.chunk_policy, &s); T.chunk_seed = s; }
-        else if (k == "key") T.key = unhex(v); else if (k == "ctr") T.ctr = unhex(v); else if (k == "input") T.input = unhex(v); else if (k == "why") T.why_invalid = v; else if (k == "arg") T.argv.push_back(v);
+        else if (k == "key") T.key = unhex(v); else if (k == "ctr") T.ctr = unhex(v); else if (k == "input") T.input = unhex(v); else if (k == "why") T.why_invalid = v; else if (k == "oldoutput") { T.output_exists = true; if (v != "-") T.old_output = unhex(v); } else if (k == "arg") T.argv.push_back(v);
     }
     return !T.argv.empty();
 }
